@@ -26,7 +26,8 @@ SPEC_FIELDS = {"C01": ["match", "val"], "C02": ["trace"], "C05": ["stores"], "C1
 
 PROPS = {
     "C01": h1prop("PigeonVerif.Properties.C01", P(["val", "pos", "noerr"]),
-                  [("core", 5000, 150000), ("blocks", 1500, 40000), ("throw", 800, 20000), ("lr", 800, 20000), ("utf8", 800, 20000)]),
+                  [("core", 5000, 150000), ("blocks", 1500, 40000), ("throw", 800, 20000), ("lr", 800, 20000), ("utf8", 800, 20000)],
+                  tools=[("pvlower", 1200, 40000, [])]),
     "C02": h1prop("PigeonVerif.Properties.C02", P(["trace_ctx"]),
                   [("blocks", 5000, 150000), ("state", 2000, 50000), ("memo", 1000, 30000), ("lr", 1000, 30000), ("utf8", 1000, 20000)],
                   oracles=[orc_c02]),
@@ -65,7 +66,8 @@ PROPS = {
                   [("throw", 6000, 200000)]),
     "C15": h1prop("PigeonVerif.Properties.C15", P(["val", "pos", "errs", "mf"]),
                   [("core", 6000, 200000), ("utf8", 2000, 50000), ("blocks", 1000, 20000)],
-                  twins=twins_c15, twin_rel=rel_c15, variants=[v for v in core.ALL_VARIANTS if v.endswith("b1")]),
+                  twins=twins_c15, twin_rel=rel_c15, variants=[v for v in core.ALL_VARIANTS if v.endswith("b1")],
+                  tools=[("pvlower", 800, 30000, [])]),
     "C16": h1prop("PigeonVerif.Properties.C16", P(["val", "cnt", "errs"]),
                   [("budget", 6000, 200000), ("memo", 1000, 30000)], oracles=[orc_c16], phase2=phase2_c16,
                   twins=twins_c16_memo, twin_rel=rel_none),
